@@ -41,13 +41,13 @@ CHECKS = {
                 text="17 theorems, unbounded in occupation numbers, powers and number of modes: _multiply_op (all four branches incl. the fermionic sign counting), _multiply_expr, __mul__, +, -, adjoint (weighted inner product), integer powers denote the corresponding operators; associativity and distributivity as equalities of denotations; C08_dagger_mul ((xy)† = y†x† on matrix elements between physical Fock states); C08_from_expr / C08_as_expr / C08_roundtrip (conversion from and to expressions denotes the same operator, from_expr(as_expr x) never raises); C08_pow_neg (negative powers of number-only forms are inverses where the coefficient does not vanish). Negative powers of forms with unpaired operators raise in the code and are outside the property; as_expr theorem for coefficients without reciprocals.",
                 note=BASE_NOTE + "Preconditions sig_ok / wf_nof / bok in the statements (operator ordering, binary powers in {-1,0,1}, binary occupations) are preserved by every modelled operation; sympy xreplace/simplify assumed value-preserving."),
     "C09": dict(cat="proof", tech="Coq theorems on hand models of the compiler (Compile.v) and evaluator (Exec.v) against the specification interpreter (Interp.v), tied by correspondence k_compile (generated code, canonical s-expressions) and k_seriescomp (values on generated programs) + independent Python interpreter as oracle",
-                text="C09_sound: for every program, value ring, scope, fuel, fault plan and request schedule, every value returned by the evaluator for ANY series name (deleted or not, either table) denotes the value of the direct interpretation, including deletion of once-used terms, Hermitian shortcuts (their validity is an explicit hypothesis herm_low/herm_diag of the world, PROVED for the shipped main algorithm: C09_sound_main via DSL/HermValid.v, HermMain.v), flags and linear-operator mode; C09_main_regular / C09_nh_regular. Termination not proved (Stratified.v is a decidable certificate passed by both shipped algorithms, not the theorem): statements are for runs within fuel, non-vacuity by vm_compute examples.",
+                text="C09_sound: for every program, value ring, scope, fuel, fault plan and request schedule, every value returned by the evaluator for ANY series name (deleted or not, either table) denotes the value of the direct interpretation, including deletion of once-used terms, Hermitian shortcuts (their validity is an explicit hypothesis herm_low/herm_diag of the world, PROVED for the shipped main algorithm: C09_sound_main via DSL/HermValid.v, HermMain.v), flags and linear-operator mode; C09_sound_slices (multi-element slice/list requests on any name incl. deletable intermediates); C09_main_regular / C09_nh_regular; C09_terminates (+ _main, _nh, C09_sound_main_total, C09_sound_nh_total): for every stratified program a request run with fuel >= fuel_bound (linear in the total order) never runs out of fuel, under any fault plan - so the soundness statements for the shipped algorithms carry no fuel premise. Not proved: that the outcome is a value rather than a Python exception.",
                 note=BASE_NOTE),
     "C10": dict(cat="proof", tech="Coq corollaries of the evaluator soundness invariant + correspondence k_schedules (all permutations/repetitions of requests, shared inputs, read-only arrays)",
                 text="C10_history (any two schedules return the same value, the interpretation value), C10_inputs_untouched (compile never deletes an input; no request changes a Done input entry). Physical non-mutation of NumPy buffers is enforced by the harness (read-only flags, deep copies): partial for that clause.",
                 note=BASE_NOTE),
     "C11": dict(cat="proof", tech="Coq theorems on the evaluator model with a fault plan (any callback index, any exception class, repeated faults) + exhaustive fault injection through the three public callbacks (k_faults)",
-                text="C11_exn_safe (after any schedule under any fault plan no Pending entry is left, later values equal the undisturbed ones), C11_no_pending_returned, C11_recursion.",
+                text="C11_exn_safe (after any schedule under any fault plan no Pending entry is left, later values equal the undisturbed ones), C11_no_pending_returned, C11_recursion, C11_later_requests_terminate; the fault harness also uses the library's own errors as faults (o_library_errors).",
                 note=BASE_NOTE + "That a later request returns (termination) is covered by the harness only."),
     "C12": dict(cat="proof", tech="Coq theorems (causal cone, once-only input evaluation, non-interference) for every program of the language + correspondence k_calllog (call logs of lazily defined Hamiltonians)",
                 text="C12_causal, C12_once, C12_noninterference for every program whose input names contain no '@'; C12_definition (only zeroth-order terms evaluated at definition time) is decided by the harness.",
@@ -56,16 +56,16 @@ CHECKS = {
                 text="C13_scale, C13_permute, C13_vanishing, C13_merge, C13_power: for the concrete algebra of series of block matrices with the wiring discharged, the map applied to H is the map relating U, U† and H_tilde (merge and power are instances of a general push-forward theorem along a monoid morphism with finite fibres). Hermitian mode; for the non-Hermitian algorithm the general transport theorem (transport_nh along an SGHom, Alg/Equivariance.v) is proved, the per-relation instances are decided by the oracles.",
                 note=ALG_NOTE),
     "C14": dict(cat="proof", tech="Coq theorems on hand models of the container normalisation and of operator_to_BlockSeries tied by correspondence k_formats (vm_compute) + pairwise exact comparison of all presentations on the implementation",
-                text="9 theorems: all container formats denoting the same family normalise to the same series, list orders, symbols sorted by name, Taylor coefficients for polynomial symbolic dependence (_partial: non-polynomial analytic dependence delegated to sympy), nested blocks, projection L_i^dagger A R_j (entry formula; sub-matrices for index vectors), Hermitian fill. The eigenbasis-rotation clause is the LAHom instance C15_degenerate_rotation / transport theorems (Alg/Equivariance.v).",
+                text="11 theorems: C14_explicit_symbols / C14_default_symbols (an explicit symbols= list is used in the given order; symbols=None uses the set-iteration order, an input fact); all container formats denoting the same family normalise to the same series, list orders, symbols sorted by name, Taylor coefficients for polynomial symbolic dependence (_partial: non-polynomial analytic dependence delegated to sympy), nested blocks, projection L_i^dagger A R_j (entry formula; sub-matrices for index vectors), Hermitian fill. The eigenbasis-rotation clause is the LAHom instance C15_degenerate_rotation / transport theorems (Alg/Equivariance.v).",
                 note=BASE_NOTE + "Dense / sparse / symbolic values are one model: their equivalence is the correspondence of all three branches with it."),
     "C20": dict(cat="proof", tech="Coq theorems on a hand model of the validation order of block_diagonalize (definition time and lazily executed tests) tied by correspondence k_validate (malformed-input stream, exception class and stage) + oracle on the implementation",
-                text="12 theorems: each listed ill-posed class, embedded in any otherwise arbitrary call record, is rejected with a listed exception no later than the first evaluation needing the quantity; well-posed calls are accepted; no division by a quantity within tolerance on accepted numeric input (with C16_diagonal_nodiv). Class definitions follow the code (symbolic blocks whose vanishing sympy cannot decide are accepted with a warning; Hermiticity is checked only for sympy-expression input). One residual corner (custom solver + single block + bare all-False mask raises UnboundLocalError) is kept visible in the statements.",
+                text="17 theorems (incl. cross-subspace overlap, container/vector/ragged classes, dead-code statement C20_kpm_pairs_shadowed): each listed ill-posed class, embedded in any otherwise arbitrary call record, is rejected with a listed exception no later than the first evaluation needing the quantity; well-posed calls are accepted; no division by a quantity within tolerance on accepted numeric input (with C16_diagonal_nodiv). Class definitions follow the code (symbolic blocks whose vanishing sympy cannot decide are accepted with a warning; Hermiticity is checked only for sympy-expression input). One residual corner (custom solver + single block + bare all-False mask raises UnboundLocalError) is kept visible in the statements.",
                 note=BASE_NOTE + "numpy.isclose/allclose and sympy is_zero/is_hermitian/Eq are given facts of the abstract call record."),
     "C15": dict(cat="proof", tech="Coq: LAHom instances (conjugation, basis permutation incl. block relabelling, degenerate rotation, direct sum) + direct least-action arguments (shift, scale) + transport/uniqueness + exact relation oracles on the implementation",
                 text="C15_conjugation, C15_basis_perm(_general), C15_relabel, C15_degenerate_rotation (+ mask condition), C15_shift, C15_scale, C15_direct_sum (+ least_action core) for the concrete algebra of series of block matrices. Tolerance comparisons of the real code are assumed not to flip under the transformation (the property's own precondition); non-Hermitian relations by the oracles only.",
                 note=ALG_NOTE),
     "C16": dict(cat="proof", tech="Coq theorems on hand models of the four solvers (stdlib / MathComp) tied by correspondence k_sylvdiag, k_greens, k_group, k_kpm, k_scalar",
-                text="C16_diagonal (+ antiherm, nodiv), C16_direct (+ pivots, regular, both orientations), C16_group, C16_kpm_contract (+ terminates, bound, small max_moments), C16_scalar: each built-in solver returns a solution of its equation where it is defined; external numerics modelled by contracts.",
+                text="C16_diagonal (+ antiherm, nodiv), C16_direct (+ pivots, regular, both orientations), C16_group, C16_kpm_contract (+ terminates, bound, small max_moments), C16_scalar: each built-in solver returns a solution of its equation where it is defined; external numerics modelled by contracts. The shared-eigenvalue predicate of the diagonal solver is |a-b| <= atol + 1e-5|b| with the solver's atol (after the repair D26 in /repo).",
                 note=BASE_NOTE + "scipy factorized/MUMPS, pivoted QR, eigsh, KDTree are contracts; invertibility of the pivot minors is a hypothesis checked exactly by the harness on every case; KPM convergence in floating point is outside the theorems."),
     "C17": dict(cat="proof", tech="MathComp theorems on a model of ComplementProjector (object graph + denotation) with an executable list model proved to refine it, tied bit-exactly by k_projector (vm_compute)",
                 text="17 theorems: matvec/rmatvec/adjoint/conjugate/transpose denote the dense 1 - R L^dagger and its transforms for every word of operations (induction over the word), caching links, idempotency, Hermitian flag, composites P A P via the LinearOperator contract, shape/dtype; `.T.T is o` only partially (refuted witness: object identity, values unaffected).",
@@ -74,7 +74,7 @@ CHECKS = {
                 text="8 theorems: enumeration of splittings, product_by_order = Cauchy sum for all shapes/parameters/sentinel patterns, association of m factors, laziness, Hermitian index transposition; the Hermitian half-sum only for adjoint pairs (_partial) with a _refuted witness that is a KNOWN FINDING on the implementation; `one + x` raise is a second known finding.",
                 note=BASE_NOTE + "Values of a product live in one ring (rectangular blocks embed by zero padding)."),
     "C19": dict(cat="proof", tech="Coq theorems on a hand model of BlockSeries.__getitem__ (trial array, cache, PENDING) tied by correspondence k_getitem / k_npindex (vm_compute)",
-                text="10 theorems: the trial-array algorithm returns np_index of any dense array of sufficient extent (whole documented subset incl. broadcasting and advanced-indices-first), views, IndexError classes, exactly-once evaluation invariant, RuntimeError on self reference, cleanup after exceptions.",
+                text="11 theorems: C19_evaluated_set (for every outcome the element requests are exactly the sorted duplicate-free NumPy-selected positions, a prefix up to the first exception); the trial-array algorithm returns np_index of any dense array of sufficient extent (whole documented subset incl. broadcasting, advanced-indices-first and NumPy's three-phase error precedence), views, IndexError classes, exactly-once evaluation invariant, RuntimeError on self reference, cleanup after exceptions.",
                 note=BASE_NOTE + "np_index is a specification of NumPy indexing tied to the real NumPy by k_npindex; C19_exn_cleanup assumes user evals touch caches only through element requests."),
 }
 
